@@ -682,6 +682,24 @@ fn sweeps(tier: Tier) -> Vec<Sweep> {
             }
         }
     }
+    // char.def with one undecodable (non-UTF-8) line inserted at every line position
+    {
+        let lines: Vec<&[u8]> = CHARDEF.as_bytes().split_inclusive(|&b| b == b'\n').collect();
+        let mut cases = vec![];
+        for pos in 0..=lines.len() {
+            for bad in [&b"# caf\xE9\n"[..], &b"\xFF\n"[..], &b"0x0041 AL \xC3\n"[..], &b"# \xED\xA0\x80 lone surrogate\n"[..]] {
+                let mut v: Vec<&[u8]> = lines.clone();
+                v.insert(pos, bad);
+                cases.push(v.concat());
+            }
+        }
+        out.push(Sweep {
+            name: "undecodable/chardef".into(),
+            kind: Kind::CharDef,
+            base: mx.clone(),
+            cases,
+        });
+    }
     // an empty unk.def / a category without an unk entry (K1)
     out.push(Sweep {
         name: "extremes/unk".into(),
@@ -764,7 +782,19 @@ fn check_case(sw: &Sweep, case: &[u8], kf: &[KnownFinding], sentences: &[String]
         });
         return;
     }
-    let judged = if sw.kind == Kind::CharDef { Some(judge_chardef(case)) } else { None };
+    // a char.def with undecodable lines that is accepted all the same must at least honour its
+    // decodable lines: it is judged with the undecodable lines removed
+    let judged = if sw.kind == Kind::CharDef {
+        if std::str::from_utf8(case).is_ok() {
+            Some(judge_chardef(case))
+        } else {
+            let kept: Vec<&[u8]> = case.split_inclusive(|&b| b == b'\n').filter(|l| std::str::from_utf8(l).is_ok()).collect();
+            st.count("chardef_cases_with_undecodable_lines");
+            Some(judge_chardef(&kept.concat()))
+        }
+    } else {
+        None
+    };
     let Ok(d) = built else {
         return;
     };
@@ -936,8 +966,8 @@ pub fn run(tier: Tier) -> i32 {
         st.add(&format!("cases_{}", sw.name.split('/').next().unwrap()), sw.cases.len() as u64);
     }
     st.samples.truncate(6);
-    rep.rule = "state = one definition file replaced by a generated content while the other files stay valid: all byte strings up to 6/7 bytes over per-format alphabets (matrix.def, char.def after a valid header, lex.csv, unk.def, user CSV, bigram.right/left/cost), all lines of <= 4/5 tokens from per-format token grammars, all CSV rows from field menus, every single-byte edit / truncation / line deletion, duplication and swap of 3 valid seed files per format (raw and dual connector), structured extremes, and user rows with every (left, right) id pair loaded after a connection-id mapping on square and non-square matrix/raw/dual connectors; oracle: the builder returns Ok or Err; an accepted char.def inside the reference grammar yields exactly the table the file describes; every accepted dictionary tokenizes all sentences <= 3/4 chars under both ignore_space settings with well-formed tokens; distinct = distinct (sweep, outcome, content length) classes".into();
+    rep.rule = "state = one definition file replaced by a generated content while the other files stay valid: all byte strings up to 6/7 bytes over per-format alphabets (matrix.def, char.def after a valid header, lex.csv, unk.def, user CSV, bigram.right/left/cost), all lines of <= 4/5 tokens from per-format token grammars, all CSV rows from field menus, every single-byte edit / truncation / line deletion, duplication and swap of 3 valid seed files per format (raw and dual connector), structured extremes, and user rows with every (left, right) id pair loaded after a connection-id mapping on square and non-square matrix/raw/dual connectors; oracle: the builder returns Ok or Err; an accepted char.def inside the reference grammar yields exactly the table the file describes (a char.def with undecodable lines, if accepted at all, the table of its decodable lines); every accepted dictionary tokenizes all sentences <= 3/4 chars under both ignore_space settings with well-formed tokens; distinct = distinct (sweep, outcome, content length) classes".into();
     rep.bounds = json!({"sweeps": sws.iter().map(|s| json!({"name": s.name, "cases": s.cases.len()})).collect::<Vec<_>>()});
     rep.assumptions = vec!["matrix headers use a large value in one dimension at a time (a 65535x65535 matrix would test the allocator)".into(), "mapping iterators are swept in C06".into()];
-    rep.finish(st, &["outcome_Ok", "outcome_Err", "accepted_CharDef", "accepted_Matrix", "accepted_Lex", "accepted_Unk", "accepted_User", "accepted_BigramCost", "user_rows_accepted_after_a_mapping", "chardef_tables_compared", "sentences_on_accepted_dictionaries"])
+    rep.finish(st, &["outcome_Ok", "outcome_Err", "accepted_CharDef", "accepted_Matrix", "accepted_Lex", "accepted_Unk", "accepted_User", "accepted_BigramCost", "user_rows_accepted_after_a_mapping", "chardef_tables_compared", "chardef_cases_with_undecodable_lines", "sentences_on_accepted_dictionaries"])
 }
